@@ -663,14 +663,17 @@ func init() {
 				}
 			}
 			// the statement itself on two Readline sessions: record + call versus typing twice
-			type scfg struct{ k, n int }
-			scfgs := []scfg{{1, 0}, {1, 4}, {2, 4}}
+			type scfg struct {
+				k, n  int
+				alpha string
+			}
+			scfgs := []scfg{{1, 0, ""}, {1, 4, ""}, {2, 4, ""}}
 			if tier == "thorough" {
-				scfgs = append(scfgs, scfg{2, 0}, scfg{2, 6}, scfg{3, 4})
+				scfgs = append(scfgs, scfg{2, 0, ""}, scfg{2, 6, ""}, scfg{3, 4, "ctl"})
 			}
 			for _, c := range scfgs {
 				for _, style := range []string{"emacs", "vi"} {
-					j := mkJob(".ZZ_C18_Session", ".ZZSetup_TwoShellsWrapped", "style", style, "k", itoa(c.k), "n", itoa(c.n))
+					j := mkJob(".ZZ_C18_Session", ".ZZSetup_TwoShellsWrapped", "style", style, "k", itoa(c.k), "n", itoa(c.n), "alpha", c.alpha)
 					j.Stubs = paintStubs
 					j.Reach = []string{"both-ran"}
 					jobs = append(jobs, j)
@@ -683,11 +686,11 @@ func init() {
 			"recorded keys are k symbolic ASCII bytes (0x00-0x7F: printable, control, ESC, quotes, backslash); they are recorded through core.MatchedKeys + macro.RecordKeys exactly as the main loop does once per resolved key, stored by StopRecord and replayed by RunLastMacro (emacs style) or RunMacro('a') (vi style); the replayed keys are read back with core.PopKey",
 			"non-ASCII keys are outside this check (C02 records that non-ASCII input is dropped before it reaches a command)",
 			"session jobs (ZZ_C18_Session): two shells; the first n characters of 'ab c.d' are typed (vi: in insert mode, then ESC), then shell A gets C-x ( K C-x ) C-x e (vi: q a K q @ a) and shell B gets K K, every key in a read of its own; K = k symbolic ASCII bytes; compared: returned line and error, or buffer, cursor, main and local keymap at the wait after the last key",
-			"K is a script of complete commands that leaves the macro keys meaningful: after K no command waits for an argument key, no operator for a motion, no prefix for its next key, no search minibuffer is open, the main keymap is unchanged and no local keymap is active; K does not contain the macro keys themselves (C-x in emacs; q, @ in vi); in vi ESC is allowed as last key only (a lone ESC differs from an ESC prefix by timing only, which a macro does not record)",
+			"K is a script of complete commands that leaves the macro keys meaningful: after K no command waits for an argument key, no operator for a motion, no prefix for its next key, no search minibuffer is open, the main keymap is unchanged and no local keymap is active; K does not contain the macro keys themselves (C-x in emacs; q, @ in vi); in vi ESC is allowed as last key only, and in emacs ESC is not followed by another key while a local keymap is active (a lone ESC differs from an ESC prefix by timing only, which a macro does not record)",
 			"panics and hangs met on the way are C01's subject and ignored here",
 		},
 		Stubs:  append([]string{"unicode.IsPrint/ToUpper exact formulas; fmt %x model"}, paintStubs...),
-		Bounds: map[string]string{"quick": "unit: k <= 2 keys; sessions: k = 1 on an empty and a 4-character buffer, k = 2 on a 4-character buffer", "thorough": "unit: k <= 3 keys; sessions: k <= 2 on buffers of 0, 4, 6 characters, k = 3 on 4 characters"},
+		Bounds: map[string]string{"quick": "unit: k <= 2 keys; sessions: k = 1 on an empty and a 4-character buffer, k = 2 on a 4-character buffer", "thorough": "unit: k <= 3 keys; sessions: k <= 2 on buffers of 0, 4, 6 characters, k = 3 control/ESC/DEL keys on 4 characters"},
 		Rule:   "one state per completed symbolic path",
 	}
 }
@@ -747,14 +750,48 @@ func init() {
 					jobs = append(jobs, j)
 				}
 			}
+			add := func(reach string, kv ...string) {
+				j := mkJob(".ZZ_C03_Dispatch", shellSetup, kv...)
+				j.Stubs = paintStubs
+				j.Reach = []string{"resolved", reach}
+				jobs = append(jobs, j)
+			}
+			// a binding that is a macro whose keys are another binding's sequence
+			macShapes := map[string][]int{"11": {1, 2}, "12": {2, 3}, "21": {2, 3}}
+			if tier == "thorough" {
+				macShapes = map[string][]int{"11": {1, 2, 3}, "12": {1, 2, 3}, "21": {2, 3}, "22": {2, 3, 4}, "112": {2, 3}, "212": {2, 3}}
+			}
+			for _, sh := range sortedKeys(macShapes) {
+				for _, m := range macShapes[sh] {
+					add("macro-fires", "lens", sh, "m", itoa(m), "mac", "1")
+				}
+			}
+			// the other main keymaps, and local keymaps in front of a main one
+			kmShapes := []string{"12"}
+			if tier == "thorough" {
+				kmShapes = []string{"12", "22", "112"}
+			}
+			for _, sh := range kmShapes {
+				m := "3"
+				add("some-binding-fires", "lens", sh, "m", m, "km", "vi-insert")
+				add("some-binding-fires", "lens", sh, "m", m, "km", "vi-command")
+				add("some-binding-fires", "lens", sh, "m", m, "local", "visual")
+				add("some-binding-fires", "lens", sh, "m", m, "local", "vi-opp", "km", "vi-command")
+				add("some-binding-fires", "lens", sh, "m", m, "local", "menu-select")
+				if tier == "thorough" {
+					add("macro-fires", "lens", sh, "m", m, "km", "vi-command", "mac", "1")
+				}
+			}
 			return jobs
 		},
 		Assumptions: append([]string{
 			"the emacs keymap is replaced by a symbolic table of T bindings (sequence lengths per job, keys symbolic over {a, b, ESC, C-x, M-a}), each bound to its own probe command; m symbolic keys over {a, b, ESC, C-x} are typed one per read in a real Readline call",
-			"only the first resolution is compared (what happens to the key that ends a failed or shortened attempt is C05's subject); macros are not part of the symbolic tables",
+			"only the first resolution is compared (what happens to the key that ends a failed or shortened attempt is C05's subject)",
+			"macro jobs: the first binding is a macro whose keys are the second binding's sequence; when the macro's sequence resolves and nothing extends the second sequence, the second binding's probe must run at the key that completed the macro's sequence",
+			"keymap jobs: the table replaces vi-insert / vi-command (made the main keymap), or a local keymap (visual, vi-opp, menu-select; made active in front of a main keymap holding one never-typed binding); in those keymaps ESC arrives in the same read as the key that follows it (a lone ESC leaves insert mode / cancels the local mode by design; the two are told apart by timing only) and a command is attributed to the read being consumed when it ran; isearch is not covered (needs a live search)",
 		}, stepAssumptions[1:]...),
 		Stubs:  []string{"tty ioctls", "stdin = zzverif.Script", "stdout discarded"},
-		Bounds: map[string]string{"quick": "tables of <= 2 sequences of length <= 2, m <= 3 keys", "thorough": "tables of <= 3 sequences of length <= 3, m <= 4 keys"},
+		Bounds: map[string]string{"quick": "emacs: tables of <= 2 sequences of length <= 2, m <= 3 keys; macro tables 11/12/21; vi-insert, vi-command, visual, vi-opp, menu-select: table shape 12, m = 3", "thorough": "emacs: tables of <= 3 sequences of length <= 3, m <= 4 keys; macro tables up to 3 sequences; other keymaps: shapes 12, 22, 112, m = 3"},
 		Rule:   "one state per completed symbolic path (a path = a class of tables and key strings)",
 		IgnoreKinds: []string{"panic", "hang", "deadlock", "spin"},
 	}
